@@ -182,3 +182,15 @@ Proof.
   unfold flush_run, flush_step, flush_hit. rewrite E. simpl.
   destruct flush_straddle_check, flush_contains_check; reflexivity.
 Qed.
+
+(* http.Handler variant: a body of unknown length is flushed after every read the upstream
+   body returned, so every chunk (and every event) the origin has sent is passed on *)
+Theorem handler_read_delivered :
+  hw_unknown_length_flushes_every_write = true ->
+  forall meth r rs1 d rs2, should_chunk meth r = true -> d <> [] ->
+    nth_error (handler_flushes meth r (rs1 ++ d :: rs2)) (length rs1) = Some true.
+Proof.
+  intros Hf meth r rs1 d rs2 Hc Hd. unfold handler_flushes. rewrite Hc, Hf.
+  rewrite map_app, nth_error_app2 by (rewrite map_length; lia).
+  rewrite map_length, Nat.sub_diag. destruct d; [congruence | reflexivity].
+Qed.
